@@ -101,6 +101,16 @@ void *g_hadd_head, *g_hadd_item;
 int g_hadd_key;
 #define HLOG_PRE (g_hadd_n < 1000000u)
 #define HLOG_FRAME g_hadd_n, g_hadd_head, g_hadd_item, g_hadd_key
+/* HASH_SORT (not verified): a log of (table, comparator) in call order */
+enum c15_srt { C15_SRT_by_rank = 1, C15_SRT_by_pid = 2, C15_SRT_by_phyid = 3, C15_SRT_by_tid = 4 };
+unsigned g_srt_n; void *g_srt_head[5]; int g_srt_cmp[5];
+static inline void c15_hash_sort(void *head, int cmp)
+{
+	unsigned k = g_srt_n++;
+	if (k < 5) { g_srt_head[k] = head; g_srt_cmp[k] = cmp; }
+}
+#undef HASH_SORT
+#define HASH_SORT(head, cmpfcn) c15_hash_sort((void *) &(head), C15_SRT_##cmpfcn)
 #undef HASH_ADD_INT
 #undef HASH_FIND_INT
 #ifdef C15_CHAIN
@@ -543,6 +553,31 @@ void h_loom_set_rank_min(void)
 	if (r != 0 && w_rm_old_min == INT_MAX && w_rm_n == 3 && w_rm_rank[0] >= 0 && w_rm_rank[2] < 0) REACH("mixed rank / no rank refused (first has)");
 	if (r != 0 && w_rm_old_min == INT_MAX && w_rm_n == 2 && w_rm_rank[0] < 0 && w_rm_rank[1] >= 0) REACH("mixed rank / no rank refused (first lacks)");
 	if (r != 0 && w_rm_old_min != INT_MAX) REACH("rank_min already set refused");
+}
+
+/* ---------------- loom_sort (bounded: <= 3 processes): which comparator sorts what ----------------
+ * processes by rank when the loom has rank information, else by PID; CPUs by
+ * physical id; the threads of every process by TID */
+int w_so_n, w_so_re;
+struct proc *g_so_p0, *g_so_p1, *g_so_p2;
+void c_loom_sort(struct loom *loom)
+__CPROVER_requires(__CPROVER_is_fresh(loom, sizeof(*loom)) && LOOM_PROCS3_PRE(loom) && g_srt_n == 0)
+__CPROVER_requires(w_so_n == PLEN3(loom) && w_so_re == loom->rank_enabled && g_so_p0 == P0(loom) &&
+	(P0(loom) == NULL || (g_so_p1 == P1(loom) && (P1(loom) == NULL || g_so_p2 == P2(loom)))))
+__CPROVER_assigns(g_srt_n, __CPROVER_object_whole(g_srt_head), __CPROVER_object_whole(g_srt_cmp))
+__CPROVER_ensures(g_srt_n == 2u + (unsigned) w_so_n)
+__CPROVER_ensures(g_srt_head[0] == (void *) &loom->procs && g_srt_cmp[0] == (w_so_re ? C15_SRT_by_rank : C15_SRT_by_pid))
+__CPROVER_ensures(g_srt_head[1] == (void *) &loom->cpus && g_srt_cmp[1] == C15_SRT_by_phyid)
+__CPROVER_ensures(w_so_n < 1 || (g_srt_head[2] == (void *) &g_so_p0->threads && g_srt_cmp[2] == C15_SRT_by_tid))
+__CPROVER_ensures(w_so_n < 2 || (g_srt_head[3] == (void *) &g_so_p1->threads && g_srt_cmp[3] == C15_SRT_by_tid))
+__CPROVER_ensures(w_so_n < 3 || (g_srt_head[4] == (void *) &g_so_p2->threads && g_srt_cmp[4] == C15_SRT_by_tid))
+;
+void h_loom_sort(void)
+{
+	struct loom *loom;
+	loom_sort(loom);
+	if (w_so_re && w_so_n == 3) REACH("three processes sorted by rank");
+	if (!w_so_re && w_so_n == 2) REACH("two processes sorted by pid");
 }
 
 /* ---------------- comparators: exact three-way comparison on the documented key ---------------- */
